@@ -21,8 +21,10 @@ import (
 	"math"
 	"math/rand"
 	"os"
+	"runtime"
 	"sort"
 	"strconv"
+	"sync"
 	"sync/atomic"
 	"time"
 
@@ -30,6 +32,7 @@ import (
 	"go.opentelemetry.io/otel/attribute"
 	"go.opentelemetry.io/otel/metric"
 	sdkmetric "go.opentelemetry.io/otel/sdk/metric"
+	"go.opentelemetry.io/otel/sdk/metric/exemplar"
 	"go.opentelemetry.io/otel/sdk/metric/metricdata"
 	"go.opentelemetry.io/otel/sdk/verifh/vh"
 )
@@ -58,6 +61,7 @@ type StreamSpec struct {
 	MaxSize int32  `json:"maxsize"` // exponential histogram
 	Meter   int    `json:"meter"`
 	Silent  bool   `json:"-"` // companion stream: executed, not written to the trace
+	NoGate  bool   `json:"-"` // companion stream: default exemplar reservoirs (never holds a gate)
 }
 
 func (s StreamSpec) float() bool { return s.Unit != 1 || s.Wide }
@@ -259,6 +263,7 @@ type stream struct {
 	obsF    metric.Float64Observable
 	table   []int // value index per attribute set (slot a-1), 0 = not in the table
 	pending []Op
+	conc    bool // the pending operations were issued by several goroutines at once
 	trk     [2]*track
 	lines   []map[string]any
 	ncycles int
@@ -279,6 +284,13 @@ type scenario struct {
 	// only timestamps produced by the SDK are ever compared with each other (no harness clock)
 	seen [2][]time.Time
 	errs int
+	// gates inside user-supplied exemplar reservoirs (see selector): the provider (first measurement
+	// of an attribute set in an aggregate) and Reservoir.Collect (an aggregate being collected)
+	provArmed, collArmed          atomic.Bool
+	heldName                      string // stream whose reservoir holds the gate (written before entered is closed)
+	twins, twinWaited, twinInside int
+	mids, midWaited, midInside    int
+	storms                        int
 	// gate of the overlapping collections (see collectOverlapped)
 	armed            atomic.Bool
 	entered, release chan struct{}
@@ -360,8 +372,11 @@ func newScenario(rng *rand.Rand, specs []StreamSpec, ncb int, reuse bool, deltaF
 	}
 	for _, sp := range specs {
 		if !sp.NoView {
-			opts = append(opts, sdkmetric.WithView(sdkmetric.NewView(
-				sdkmetric.Instrument{Name: sp.Name}, sdkmetric.Stream{Aggregation: aggregationOf(sp)})))
+			st := sdkmetric.Stream{Aggregation: aggregationOf(sp)}
+			if !sp.NoGate {
+				st.ExemplarReservoirProviderSelector = sc.selector(sp.Name)
+			}
+			opts = append(opts, sdkmetric.WithView(sdkmetric.NewView(sdkmetric.Instrument{Name: sp.Name}, st)))
 		}
 	}
 	sc.mp = sdkmetric.NewMeterProvider(opts...)
@@ -683,17 +698,18 @@ func (sc *scenario) unknown(g gathered) {
 	}
 }
 
-func (s *stream) takeOps() ([]Op, []int) {
+func (s *stream) takeOps() ([]Op, []int, bool) {
 	ops := s.pending
 	if ops == nil {
 		ops = []Op{}
 	}
-	s.pending = nil
+	conc := s.conc
+	s.pending, s.conc = nil, false
 	obs := make([]int, s.spec.NA)
 	if s.spec.async() {
 		copy(obs, s.table)
 	}
-	return ops, obs
+	return ops, obs, conc
 }
 
 // settle projects a collection point whose projection was deferred (see collect).
@@ -728,12 +744,13 @@ func (sc *scenario) collect(deltaFirst bool) {
 		sc.unknown(got[r])
 	}
 	type taken struct {
-		ops []Op
-		obs []int
+		ops  []Op
+		obs  []int
+		conc bool
 	}
 	tk := make([]taken, len(sc.streams))
 	for i, s := range sc.streams {
-		tk[i].ops, tk[i].obs = s.takeOps()
+		tk[i].ops, tk[i].obs, tk[i].conc = s.takeOps()
 	}
 	finish := func() {
 		for i, s := range sc.streams {
@@ -741,7 +758,8 @@ func (sc *scenario) collect(deltaFirst bool) {
 			for r := 0; r < 2; r++ {
 				rd[r], s.trk[r] = sc.project(r, len(sc.seen[r]), s, s.trk[r], got[r].byName[s.spec.Name])
 			}
-			s.lines = append(s.lines, map[string]any{"ev": "Cycle", "ops": tk[i].ops, "obs": tk[i].obs, "d": rd[0], "c": rd[1]})
+			s.lines = append(s.lines, map[string]any{"ev": "Cycle", "ops": tk[i].ops, "obs": tk[i].obs, "conc": tk[i].conc,
+				"d": rd[0], "c": rd[1]})
 			s.ncycles++
 		}
 		for r := 0; r < 2; r++ {
@@ -827,15 +845,245 @@ func (sc *scenario) collectOverlapped(x int) {
 		q1, u1 := sc.project(x, kx, s, s.trk[x], gQ.byName[name])
 		q2, _ := sc.project(x, kx+1, s, u1, gP.byName[name])
 		s.trk[x] = t2
-		ops, obs := s.takeOps()
+		ops, obs, conc := s.takeOps()
 		pair := func(xr RD, i int) map[string]any { return map[string]any{names[x]: xr, names[y]: ys[i][si]} }
-		s.lines = append(s.lines, map[string]any{"ev": "Over", "x": names[x], "ops": ops, "obs": obs,
+		s.lines = append(s.lines, map[string]any{"ev": "Over", "x": names[x], "ops": ops, "obs": obs, "conc": conc,
 			"p1": pair(p1, 0), "p2": pair(p2, 1), "q1": pair(q1, 0), "q2": pair(q2, 1)})
 		s.ncycles += 2
 	}
 	sc.advance(x, gP)
 	sc.advance(x, gQ)
 	sc.overlapped++
+}
+
+// ---------------------------------------------------------------- concurrent recorders and reservoir gates
+
+// selector: the exemplar reservoirs of a stream with a view are the SDK's default ones behind two
+// gates.  (1) The provider blocks when provArmed: it is called by an aggregate for the FIRST
+// measurement of an attribute set (in every cycle of a delta stream), while -- in this SDK -- the
+// aggregate's lock is held.  (2) Reservoir.Collect blocks when collArmed: it is called while the
+// aggregate is being collected.  A goroutine held at a gate lets the harness start the operation
+// that must not get through meanwhile (a second first measurement of the same set; a measurement
+// during the collection).  Exemplars themselves are not projected.
+func (sc *scenario) selector(name string) sdkmetric.ExemplarReservoirProviderSelector {
+	return func(agg sdkmetric.Aggregation) exemplar.ReservoirProvider {
+		def := sdkmetric.DefaultExemplarReservoirProviderSelector(agg)
+		return func(attrs attribute.Set) exemplar.Reservoir {
+			if sc.provArmed.CompareAndSwap(true, false) {
+				sc.heldName = name
+				close(sc.entered)
+				<-sc.release
+			}
+			return &gatedReservoir{inner: def(attrs), sc: sc, name: name}
+		}
+	}
+}
+
+type gatedReservoir struct {
+	inner exemplar.Reservoir
+	sc    *scenario
+	name  string
+}
+
+func (g *gatedReservoir) Offer(ctx context.Context, t time.Time, v exemplar.Value, a []attribute.KeyValue) {
+	g.inner.Offer(ctx, t, v, a)
+}
+
+func (g *gatedReservoir) Collect(dest *[]exemplar.Exemplar) {
+	if g.sc.collArmed.CompareAndSwap(true, false) {
+		g.sc.heldName = g.name
+		close(g.sc.entered)
+		<-g.sc.release
+	}
+	g.inner.Collect(dest)
+}
+
+type recOp struct {
+	s    *stream
+	a, j int
+}
+
+// rawRecord makes one measurement (callable from any goroutine; no bookkeeping).
+func rawRecord(r recOp) {
+	iv, fv := r.s.value(r.j)
+	opt := metric.WithAttributeSet(attrSets[r.a-1])
+	if r.s.spec.float() {
+		r.s.recF(context.Background(), fv, opt)
+	} else {
+		r.s.recI(context.Background(), iv, opt)
+	}
+}
+
+func (sc *scenario) noteConcurrent(ops []recOp) {
+	for _, r := range ops {
+		r.s.pending = append(r.s.pending, Op{Op: "Rec", A: r.a, J: r.j})
+		r.s.conc = true
+	}
+}
+
+// recordConcurrent: the goroutines (one per batch) start together behind a spin barrier and make
+// their measurements at once; all of them are joined before it returns, so collections stay at
+// quiescent points.  The content of the cycle is a multiset: the order logged is arbitrary.
+func (sc *scenario) recordConcurrent(batches [][]recOp) {
+	var ready atomic.Int32
+	var start atomic.Bool
+	var wg sync.WaitGroup
+	for _, b := range batches {
+		wg.Add(1)
+		go func(b []recOp) {
+			defer wg.Done()
+			ready.Add(1)
+			for !start.Load() {
+			}
+			for _, r := range b {
+				rawRecord(r)
+			}
+		}(b)
+	}
+	for int(ready.Load()) < len(batches) {
+		runtime.Gosched()
+	}
+	start.Store(true)
+	wg.Wait()
+	for _, b := range batches {
+		sc.noteConcurrent(b)
+	}
+	sc.storms++
+}
+
+// recordTwin: two goroutines make a measurement of the same attribute set of one stream; the first
+// is held inside the reservoir provider (if the set is new to an aggregate) while the second is
+// started.  Here the second then waits for the aggregate's lock; whatever an implementation does,
+// both measurements belong to the cycle.  How long the harness waits influences no verdict.
+func (sc *scenario) recordTwin(first, second recOp) {
+	sc.entered, sc.release = make(chan struct{}), make(chan struct{})
+	sc.provArmed.Store(true)
+	d1, d2 := make(chan struct{}), make(chan struct{})
+	go func() { rawRecord(first); close(d1) }()
+	held := false
+	select {
+	case <-sc.entered:
+		held = true
+	case <-d1: // the set is new to no aggregate: nothing to hold
+		sc.provArmed.Store(false)
+	}
+	go func() { rawRecord(second); close(d2) }()
+	if held {
+		select {
+		case <-d2:
+			sc.twinInside++
+		case <-time.After(overlapWait):
+			sc.twinWaited++
+		}
+		close(sc.release)
+	}
+	<-d1
+	<-d2
+	sc.noteConcurrent([]recOp{first, second})
+	sc.twins++
+}
+
+// projectPoint projects one collection point of both readers for every stream.
+func (sc *scenario) projectPoint(got [2]gathered) [][2]RD {
+	out := make([][2]RD, len(sc.streams))
+	for i, s := range sc.streams {
+		for r := 0; r < 2; r++ {
+			out[i][r], s.trk[r] = sc.project(r, len(sc.seen[r]), s, s.trk[r], got[r].byName[s.spec.Name])
+		}
+	}
+	for r := 0; r < 2; r++ {
+		sc.unknown(got[r])
+		sc.advance(r, got[r])
+	}
+	return out
+}
+
+// collectMid: collection point k at which reader y collects first and reader x is then held inside
+// Reservoir.Collect of some stream (i.e. in the middle of collecting that stream's aggregate) while
+// ONE measurement m of that stream (chosen by pick) is started; after both have returned, collection
+// point k+1 follows at once.  For the held stream the two points become one Mid line (see TMid in
+// Trace_Temporality); every other stream gets two ordinary lines.  If no gated reservoir is collected
+// (the gated streams have no data) this is an ordinary collection point and false is returned.
+func (sc *scenario) collectMid(x int, pick func(held *stream) (recOp, bool)) bool {
+	sc.settle()
+	ctx := context.Background()
+	y := 1 - x
+	names := [2]string{"d", "c"}
+	var got [2]gathered
+	vh.Must(sc.readers[y].Collect(ctx, sc.nextRM(y)))
+	got[y] = gather(sc.rms[y])
+	rmX := sc.nextRM(x)
+	sc.entered, sc.release = make(chan struct{}), make(chan struct{})
+	sc.collArmed.Store(true)
+	doneX := make(chan error, 1)
+	go func() { doneX <- sc.readers[x].Collect(ctx, rmX) }()
+	held := false
+	select {
+	case <-sc.entered:
+		held = true
+	case err := <-doneX:
+		vh.Must(err)
+		sc.collArmed.Store(false)
+	}
+	var m recOp
+	hasM := false
+	if held {
+		if m, hasM = pick(sc.byName[sc.heldName]); hasM {
+			dM := make(chan struct{})
+			go func() { rawRecord(m); close(dM) }()
+			select {
+			case <-dM:
+				sc.midInside++
+			case <-time.After(overlapWait):
+				sc.midWaited++
+			}
+			close(sc.release)
+			vh.Must(<-doneX)
+			<-dM
+		} else {
+			close(sc.release)
+			vh.Must(<-doneX)
+		}
+	}
+	got[x] = gather(rmX)
+	type taken struct {
+		ops  []Op
+		obs  []int
+		conc bool
+	}
+	tk := make([]taken, len(sc.streams))
+	for i, s := range sc.streams {
+		tk[i].ops, tk[i].obs, tk[i].conc = s.takeOps()
+	}
+	p1 := sc.projectPoint(got)
+	if !hasM {
+		for i, s := range sc.streams {
+			s.lines = append(s.lines, map[string]any{"ev": "Cycle", "ops": tk[i].ops, "obs": tk[i].obs, "conc": tk[i].conc,
+				"d": p1[i][0], "c": p1[i][1]})
+			s.ncycles++
+		}
+		return false
+	}
+	// collection point k+1, quiescent
+	for _, r := range []int{y, x} {
+		vh.Must(sc.readers[r].Collect(ctx, sc.nextRM(r)))
+		got[r] = gather(sc.rms[r])
+	}
+	p2 := sc.projectPoint(got)
+	for i, s := range sc.streams {
+		pt := func(p [2]RD) map[string]any { return map[string]any{"d": p[0], "c": p[1]} }
+		if s == m.s {
+			s.lines = append(s.lines, map[string]any{"ev": "Mid", "x": names[x], "ops": tk[i].ops, "obs": tk[i].obs, "conc": tk[i].conc,
+				"m": []Op{{Op: "Rec", A: m.a, J: m.j}}, "p1": pt(p1[i]), "p2": pt(p2[i])})
+		} else {
+			s.lines = append(s.lines,
+				map[string]any{"ev": "Cycle", "ops": tk[i].ops, "obs": tk[i].obs, "conc": tk[i].conc, "d": p1[i][0], "c": p1[i][1]},
+				map[string]any{"ev": "Cycle", "ops": []Op{}, "obs": tk[i].obs, "conc": false, "d": p2[i][0], "c": p2[i][1]})
+		}
+		s.ncycles += 2
+	}
+	sc.mids++
+	return true
 }
 
 var overlapWait = func() time.Duration {
@@ -875,6 +1123,13 @@ func (sc *scenario) flush(tw *vh.TraceWriter, scID *int, meta map[string]any) in
 func countRegimes(res *vh.Result, sc *scenario) {
 	res.Count("overlapped_pairs", int64(sc.overlapped))
 	res.Count("deferred_projections", int64(sc.nDeferred))
+	res.Count("concurrent_batches", int64(sc.storms))
+	res.Count("twin_first_measurements", int64(sc.twins))
+	res.Count("twin_second_waited", int64(sc.twinWaited))
+	res.Count("twin_second_ran_inside_first", int64(sc.twinInside))
+	res.Count("mid_collection_measurements", int64(sc.mids))
+	res.Count("mid_measurement_waited", int64(sc.midWaited))
+	res.Count("mid_measurement_ran_inside_collection", int64(sc.midInside))
 	res.Count("overlap_second_waited", int64(sc.overlapHeld))
 	res.Count("overlap_second_ran_inside_first", int64(sc.overlapInside))
 	for _, s := range sc.streams {
@@ -885,7 +1140,7 @@ func countRegimes(res *vh.Result, sc *scenario) {
 		type point struct{ d, c RD }
 		var pts []point
 		for _, l := range s.lines {
-			if l["ev"] == "Over" {
+			if l["ev"] == "Over" || l["ev"] == "Mid" {
 				for _, k := range []string{"p1", "p2"} {
 					m := l[k].(map[string]any)
 					pts = append(pts, point{m["d"].(RD), m["c"].(RD)})
@@ -963,7 +1218,7 @@ const heartbeatName = "heartbeat"
 
 func heartbeatFor(sp StreamSpec) StreamSpec {
 	hb := StreamSpec{Cfg: Cfg{Agg: sp.Agg, NA: 1, Vals: []int64{7}, Unit: sp.Unit, Bounds: []int64{}, NCB: 1},
-		Name: heartbeatName, Meter: sp.Meter, Silent: true}
+		Name: heartbeatName, Meter: sp.Meter, Silent: true, NoGate: true}
 	if sp.Wide {
 		hb.Unit = 4
 	}
@@ -1000,9 +1255,35 @@ func overlapCandidates(ops []Op) []int {
 	return out
 }
 
-// runOps executes the operations on the stream under test; the two collection points at
-// overlapAt, overlapAt+1 (if >= 0) are executed as overlapping collections of reader x.
-func runOps(sc *scenario, s *stream, ops []Op, deltaFirst bool, overlapAt, x int) {
+// twinCandidates: positions i such that ops[i], ops[i+1] are measurements of the same attribute set
+// (executed as two goroutines, the first held in the reservoir provider); midCandidates: positions i
+// of a collection point followed by exactly one measurement and another collection point (executed
+// with the measurement made WHILE a reader collects the first point).
+func twinCandidates(ops []Op) []int {
+	var out []int
+	for i := 0; i+1 < len(ops); i++ {
+		if ops[i].Op == "Rec" && ops[i+1].Op == "Rec" && ops[i].A == ops[i+1].A {
+			out = append(out, i)
+		}
+	}
+	return out
+}
+
+func midCandidates(ops []Op) []int {
+	var out []int
+	for i := 0; i+2 < len(ops); i++ {
+		if ops[i].Op == "Collect" && ops[i+1].Op == "Rec" && ops[i+2].Op == "Collect" {
+			out = append(out, i)
+		}
+	}
+	return out
+}
+
+// plan of one replayed edge: at most one special execution (-1 = none)
+type plan struct{ overlapAt, twinAt, midAt, x int }
+
+// runOps executes the operations on the stream under test.
+func runOps(sc *scenario, s *stream, ops []Op, deltaFirst bool, pl plan) {
 	for i := 0; i < len(ops); i++ {
 		op := ops[i]
 		if hb := sc.byName[heartbeatName]; hb != nil && op.Op == "Collect" {
@@ -1010,17 +1291,28 @@ func runOps(sc *scenario, s *stream, ops []Op, deltaFirst bool, overlapAt, x int
 		}
 		switch op.Op {
 		case "Rec":
-			sc.record(s, op.A, op.J)
+			if i == pl.twinAt {
+				sc.recordTwin(recOp{s, op.A, op.J}, recOp{s, ops[i+1].A, ops[i+1].J})
+				i++
+			} else {
+				sc.record(s, op.A, op.J)
+			}
 		case "Reg":
 			sc.register(op.C)
 		case "Unreg":
 			sc.unregister(op.C)
 		case "Collect":
 			copy(s.table, op.Obs)
-			if i == overlapAt {
-				sc.collectOverlapped(x)
+			switch {
+			case i == pl.overlapAt:
+				sc.collectOverlapped(pl.x)
 				i++
-			} else {
+			case i == pl.midAt:
+				m := ops[i+1]
+				if sc.collectMid(pl.x, func(*stream) (recOp, bool) { return recOp{s, m.A, m.J}, true }) {
+					i += 2 // the measurement and the following collection point are done
+				}
+			default:
 				sc.collect(deltaFirst)
 			}
 		default:
@@ -1031,7 +1323,7 @@ func runOps(sc *scenario, s *stream, ops []Op, deltaFirst bool, overlapAt, x int
 
 // of the replayed edges that contain a candidate pair, about one in overlapEvery is overlapped
 // (until the budget is used up), so that the pairs spread over the whole edge list
-const overlapEvery = 5
+const overlapEvery = 3
 
 func replay(args []string) {
 	fs := flag.NewFlagSet("replay", flag.ExitOnError)
@@ -1041,6 +1333,8 @@ func replay(args []string) {
 	resF := fs.String("res", "result.json", "")
 	sample := fs.Int("sample", 0, "replay only every k-th edge offset by seed (0 = all)")
 	overlap := fs.Int("overlap", 0, "execute up to n pairs of consecutive collection points as overlapping collections")
+	twin := fs.Int("twin", 0, "execute up to n pairs of adjacent measurements of one set as concurrent (gated) first measurements")
+	mid := fs.Int("mid", 0, "execute up to n measurements between two collection points during the first collection")
 	fs.Parse(args)
 	var spec StreamSpec
 	vh.Must(json.Unmarshal([]byte(*cfgJ), &spec))
@@ -1071,12 +1365,25 @@ func replay(args []string) {
 		sc := newScenario(rng, specs, spec.NCB, variant%2 == 0, (variant/2)%2 == 0)
 		st := sc.byName[spec.Name]
 		ops := append(append([]Op{}, e.Path...), e.Act)
-		overlapAt := -1
-		if cand := overlapCandidates(ops); *overlap > 0 && len(cand) > 0 && (variant/64)%overlapEvery == 0 {
-			overlapAt = cand[rng.Intn(len(cand))]
-			*overlap--
+		pl := plan{-1, -1, -1, int(variant/16) % 2}
+		switch (variant / 64) % (3 * overlapEvery) {
+		case 0:
+			if cand := overlapCandidates(ops); *overlap > 0 && len(cand) > 0 {
+				pl.overlapAt = cand[rng.Intn(len(cand))]
+				*overlap--
+			}
+		case 1:
+			if cand := twinCandidates(ops); *twin > 0 && len(cand) > 0 && !spec.NoView {
+				pl.twinAt = cand[rng.Intn(len(cand))]
+				*twin--
+			}
+		case 2:
+			if cand := midCandidates(ops); *mid > 0 && len(cand) > 0 && !spec.NoView {
+				pl.midAt = cand[rng.Intn(len(cand))]
+				*mid--
+			}
 		}
-		runOps(sc, st, ops, (variant/4)%2 == 0, overlapAt, int(variant/16)%2)
+		runOps(sc, st, ops, (variant/4)%2 == 0, pl)
 		sc.shutdown()
 		sc.flush(tw, &scID, map[string]any{"edge": i, "reuse": sc.reuse})
 		res.Executed++
@@ -1255,10 +1562,43 @@ func random(args []string) {
 			x := rng.Intn(100)
 			switch {
 			case x < pCollect || i == steps-1:
-				if rng.Intn(7) == 0 {
+				switch rng.Intn(14) {
+				case 0, 1:
 					sc.collectOverlapped(rng.Intn(2))
-				} else {
+				case 2, 3:
+					// a measurement while a reader is inside the collection of the stream's aggregate
+					sc.collectMid(rng.Intn(2), func(held *stream) (recOp, bool) {
+						if held == nil || held.spec.async() {
+							return recOp{}, false
+						}
+						return recOp{held, 1 + rng.Intn(na), 1 + rng.Intn(len(held.spec.Vals))}, true
+					})
+				default:
 					sc.collect(rng.Intn(2) == 0)
+				}
+			case x >= 90:
+				// concurrent recorders (joined before anything else happens)
+				pickS := func() *stream { return syncS[rng.Intn(len(syncS))] }
+				switch rng.Intn(4) {
+				case 0: // two first measurements of one set at once, the first held in the reservoir provider
+					s, a := pickS(), 1+rng.Intn(na)
+					sc.recordTwin(recOp{s, a, 1 + rng.Intn(len(s.spec.Vals))}, recOp{s, a, 1 + rng.Intn(len(s.spec.Vals))})
+				case 1: // mixed traffic from 2-8 goroutines
+					batches := make([][]recOp, 2+rng.Intn(7))
+					for n := 8 + rng.Intn(17); n > 0; n-- {
+						s, g := pickS(), rng.Intn(len(batches))
+						batches[g] = append(batches[g], recOp{s, 1 + rng.Intn(na), 1 + rng.Intn(len(s.spec.Vals))})
+					}
+					sc.recordConcurrent(batches)
+				default: // storm: 4-8 goroutines hit the SAME (stream, attribute set) together, 1-2 values each
+					s, a := pickS(), 1+rng.Intn(na)
+					batches := make([][]recOp, 4+rng.Intn(5))
+					for g := range batches {
+						for n := 1 + rng.Intn(2); n > 0; n-- {
+							batches[g] = append(batches[g], recOp{s, a, 1 + rng.Intn(len(s.spec.Vals))})
+						}
+					}
+					sc.recordConcurrent(batches)
 				}
 			case x < pCollect+12:
 				c := 1 + rng.Intn(3)
